@@ -9,7 +9,7 @@ ALPHABET = ["a", ",", ";", ":", "=", "'", "^", " ", "\\", "%", "2", "C", "n", "â
 NAMES = ["CN", "ROLE", "X-A", "x-b1", "Dir", "MEMBER", "altrep", "LANGUAGE", "x-long-name-123", "SENT-BY", "X-Ã‰".encode("ascii", "ignore").decode() or "X-E"]
 RULE = ("parameter maps: values over the 15-symbol alphabet {a , ; : = ' ^ SP \\ % 2 C n U+2019 a-umlaut} exhaustive up to length 3, each as scalar and "
         "inside 2-4 item lists at every position, on three paths (Parameters.to_ical/from_ical, Contentline.from_parts/parts, property of a component through "
-        "to_ical/from_ical); seeded random printable-Unicode values, 1-6 parameters per map, names over RFC token characters in random case, empty "
+        "to_ical/from_ical); the empty map, and parameter-less neighbour properties of the component that must come back with empty maps; seeded random printable-Unicode values, 0-6 parameters per map, names over RFC token characters in random case, empty "
         "values and empty list items; the emitted text is additionally read with an independent RFC 5545 tokenizer (R2); non-trivial = some value "
         "contains a delimiter, quote-trigger, backslash or percent, or the map has a multi-valued parameter; distinct by construction / case hash")
 ASSUMPTIONS = ["a one-element list and a scalar are the same value (S1)", "values contain no DQUOTE and no control characters (the property's domain)",
@@ -77,10 +77,14 @@ def run(ctx):
                     for pth in PATHS:
                         ctx.check((pth, (("CN", sh),)), "unicode-blanks", enum=True)
                 i += 1
+    for pth in PATHS:
+        if ctx.mine(i):
+            ctx.check((pth, ()), "empty-map", enum=True)
+        i += 1
     ctx.exhaustive[f"alphabet<= {L} x shapes" + (" (length-3 strings rotate over the three paths)" if ctx.quick else " x paths")] = True
     rng = ctx.rng
     while ctx.time_left():
-        names = rng.sample(NAMES, rng.randrange(1, 7))
+        names = rng.sample(NAMES, rng.randrange(0, 7))
         items = []
         for nme in names:
             if rng.randrange(3) == 0:
@@ -178,7 +182,9 @@ def check_case(ctx, case):
             ctx.fail("scalar-became-list", observed=(line, scalar_became_list(items, params)), expected=want)
     else:
         ev = Event()
+        ev.add("summary", "neighbour without parameters")
         ev.add("attendee", vCalAddress("mailto:a@example.com"), parameters=d)
+        ev.add("x-neighbour", "also without")
         data = ev.to_ical()
         lines = [l for l in R3.unfold(data).decode("utf-8").split("\r\n") if l.upper().startswith("ATTENDEE")]
         if len(lines) != 1 or not check_r2(ctx, lines[0], items):
@@ -193,6 +199,10 @@ def check_case(ctx, case):
         if "ATTENDEE" not in back or isinstance(back["ATTENDEE"], list):
             ctx.fail("component-property-missing", observed=(lines[0], list(back.errors)), expected=want)
             return
+        for nb in ("SUMMARY", "X-NEIGHBOUR"):
+            if nb not in back or got_map(back[nb].params) != {}:
+                ctx.fail("neighbour-parameters", observed=(nb, got_map(back[nb].params) if nb in back else "missing"), expected="present, with an empty parameter map")
+                return
         got = got_map(back["ATTENDEE"].params)
         if got != want or str(back["ATTENDEE"]) != "mailto:a@example.com":
             ctx.fail("component-roundtrip", observed=(lines[0], got, str(back["ATTENDEE"])), expected=want)
